@@ -67,6 +67,7 @@ func lg(n int) uint64 {
 //@   ensures  forall i int :: 0 <= i && i < len(b) ==> out[i] == old(b[i])
 //@   ensures  beAt(out, len(b), specSize(v)) == v | lg(specSize(v))<<(8*uint64(specSize(v))-2)
 //@   ensures  (samebase(out, b) && suboff(out, b) == 0) || fresh(out)
+//@   ensures  len(b) + specSize(v) <= cap(b) ==> samebase(out, b) && suboff(out, b) == 0 && cap(out) == cap(b)
 //@   modifies elems(b)
 //@
 //@ func ConsumeVarint(b) (v, n)
